@@ -30,6 +30,13 @@ def gen_device(rng, nmsg=None, periods=None, two=False):
         # "no period" is written either as `period: -1` or by leaving the field out
         msgs.append({"name": NAMES[k], "id": (rng.randint(0, 2047) if nmsg <= 4 else 100 + k), "period": p, "fields": fields,
                      "omit_period": p == -1 and rng.random() < 0.6, "dev": 0})
+        if periods is None and p > 0 and p < 100000 and rng.random() < 0.2:
+            # a period written as a float: whole-number floats (10.0, 1e1) and fractions; on integer timestamps "at least P
+            # elapsed" is "at least ceil(P) elapsed", which is what the reference automaton and the model are given
+            if rng.random() < 0.5:
+                msgs[-1]["period_text"] = rng.choice([f"{p}.0", f"{p}e0"])
+            else:
+                msgs[-1]["period_text"] = f"{p - 1}.{rng.choice([25, 5, 75])}"
     if two:
         # two devices in one schema, both schedulers linked into one program (each has its own call history)
         for m in msgs:
@@ -51,7 +58,7 @@ def device_text(dev):
         for j, (t, w) in enumerate(m["fields"]):
             out.append(f"    f{j} @ {j}: {t},")
         out.append("}")
-        per = "" if m.get("omit_period") else f"    period: {m['period']},\n"
+        per = "" if m.get("omit_period") else f"    period: {m.get('period_text', m['period'])},\n"
         out.append(f"impl can for {m['name']} {{\n    id: {m['id']},\n    device: \"{DEVNAMES[m.get('dev', 0)]}\",\n{per}}}")
     return "\n".join(out) + "\n"
 
